@@ -15,14 +15,16 @@ FUNCTIONS = ["ckl.date.is_leap_year", "ckl.date.year_days", "ckl.date.month_days
              "ckl.date.to_oa_date", "ckl.date.to_date", "ckl.values.ValueDate.asInt",
              "ckl.values.ValueInt.asDate", "ckl.functions.FuncAdd.execute (date branch)",
              "ckl.functions.FuncSub.execute (date branches)", "ckl.functions.FuncInt/FuncDate"]
-OUTSIDE = ["time of day (floating point tail): the engine's floats are exact-integral only and z3 does not "
-           "decide the FP round trip within minutes, so the 'tod' cells are a CONCRETE sweep of all 86400 "
-           "seconds on a ladder of days -- evidence of the conversion code, not a solver result",
+OUTSIDE = ["time of day (floating point tail): quick tier = CONCRETE sweep of all 86400 seconds on a ladder of days "
+           "(evidence of the conversion code, not a solver result); thorough tier additionally decides the round trip "
+           "for all 86400 times of 3 fixed days as one QF_BVFP obligation each (symex.fpkernel traces the real "
+           "to_oa_date/to_date on FP terms, cvc5 decides); a symbolic day is out of reach (>50 min, both solvers)",
            "microseconds", "strptime/strftime based conversions", "years outside 1900..9999"]
 ASSUMPTIONS = ["datetime.datetime field validation is modelled by symex.symdate.SymDateTime.make",
                "oracle: datetime.date.toordinal() is the proleptic Gregorian day count"]
 REACH = {"to_oa", "to_date", "arith", "tod"}
-PATH_SECONDS = 120
+PATH_SECONDS = 1500
+CELL_SECONDS = 2400
 ORACLE_TIMEOUT = 90
 MAX_DECISIONS = 200000
 MAX_FOLDED = 20000000
@@ -70,6 +72,10 @@ def cells(tier, seed):
     for d in days:
         for h in range(24):
             out.append({"k": "tod", "date": list(d), "hour": h})
+    if tier != "quick":
+        # the same round trip as ONE floating point obligation per day over all 86400 times (cvc5)
+        for d in [(1900, 1, 1), (2017, 4, 5), (2026, 10, 3)]:
+            out.append({"k": "todfp", "date": list(d)})
     return out
 
 
@@ -128,6 +134,49 @@ def run(ctx, cell):
         else:
             ctx.check(o2.value == V.TRUE, "C17:int-date-inverse:not-identity", lambda: {"n": int(n)})
         return [out.kind, [r.year, r.month, r.day, r.hour, r.minute, r.second]]
+    if k == "todfp":
+        ctx.reach("tod")
+        y, m, d = cell["date"]
+        label = "C17:time-of-day:round-trip-loses-the-second"
+        if not ctx.symbolic:
+            h, mi, se = ctx.inputs.get("h", 0), ctx.inputs.get("mi", 0), ctx.inputs.get("s", 0)
+            src = _dt.datetime(y, m, d, h, mi, se)
+            back = D.to_date(D.to_oa_date(src))
+            if back.replace(microsecond=0) != src or back.microsecond >= 1000:
+                ctx.fail(label, {"date": src.isoformat(), "back": back.isoformat()})
+            return ["fp"]
+        from symex import fpkernel as K
+        K.register()
+        tr = K.start()
+        h, mi, se = tr.var("h", 5, 0, 23, 13), tr.var("mi", 6, 0, 59, 37), tr.var("s", 6, 0, 59, 42)
+        src = FakeDate(y, m, d)
+        src.hour, src.minute, src.second = h, mi, se
+        import z3
+        try:
+            back = D.to_date(D.to_oa_date(src))
+        except Exception as e:       # the sample time itself fails: concrete violation
+            ctx.candidates.append((label, "sample time fails: %r" % (e,), {"h": 13, "mi": 37, "s": 42}))
+            return ["fp"]
+        def term(v):
+            return v.t if isinstance(v, K.BV) else z3.BitVecVal(int(v), K.W)
+        goal = z3.And(term(back.year) == y, term(back.month) == m, term(back.day) == d, term(back.hour) == h.t,
+                      term(back.minute) == mi.t, term(back.second) == se.t)
+        res, model, st = K.decide(tr, goal, timeout_s=900)
+        ctx.e.stats.obligations += 1
+        ctx.e.stats.queries += 1
+        ctx.e.stats.solver_s += st["seconds"]
+        ctx.note("fp", st)
+        if res == "unsat":
+            ctx.e.stats.discharged += 1
+            ctx.e.stats.unsat += 1
+        elif res == "sat":
+            ctx.e.stats.sat += 1
+            ctx.candidates.append((label, {"date": [y, m, d], "model": model, "solver": st},
+                                   {"h": model.get("h", 0), "mi": model.get("mi", 0), "s": model.get("s", 0)}))
+        else:
+            ctx.e.stats.unknown += 1
+            ctx.unknowns.append(label)
+        return ["fp"]
     if k == "tod":
         ctx.reach("tod")
         y, m, d = cell["date"]
